@@ -213,7 +213,7 @@ func lineOf(cs *Case) []byte {
 		return cs.Raw
 	}
 	tag := "T1"
-	if kinds[cs.Kind].sel {
+	if kinds[cs.Kind].sel || kinds[cs.Kind].unauth {
 		tag = "T2"
 	}
 	return render(cs.Toks, tag)
